@@ -11,13 +11,13 @@
 
   Every theorem quantifies over ALL operation lists (unbounded length; put incl. chunked, update with /
   without payload and embedding, delete, commit, drop+open, crash+open, batch mode, finalize, vacuum,
-  doctor, tickets) and arbitrary trace inputs (where automatic checkpoints fire, WAL growth, …), under
-  `OpOk` for every call:
+  doctor incl. a requested vector-index rebuild, tickets) and arbitrary trace inputs (where automatic
+  checkpoints fire, WAL growth, …), under `OpOk` for every call:
     * embeddings passed to a put / update are non-empty vectors (`embDims`; an empty `Vec<f32>` is not an
       embedding) and `update_frame` passes no chunk embeddings (its signature has none);
-    * no `commit_skip_indexes` (drops the batch's embeddings: property C40, fixes/C40.diff);
-    * no doctor run that rebuilds the vector index (empties it: fixes/C21.diff).
-  Both exclusions are necessary for the model as it stands (MvProps/C14Pending.lean has the witnesses).
+    * no `commit_skip_indexes`: it clears the persisted vector index until `finalize_indexes` runs, so a
+      drop+open in between finds no index (witness in MvProps/C14Pending.lean); membership along the
+      prescribed skip … finalize pattern is property C40.
 -/
 import MvProps.C14Steps
 import MvProps.C01
@@ -251,7 +251,7 @@ def exDocE : PutArgs :=
 def exHistoryE : List Op :=
   [.put { ts := 5, content := "aa", len := 10, plen := 10, emb := some e3 } {}, .put exDocE {}, .crash 40,
    .update 0 { tags := ["x"] } {}, .delete 2 {}, .update 1 { emb := some e3 } { ac := true, ft := 80 },
-   .put { ts := 7, content := "bb", len := 4, plen := 4 } {}, .vacuum 90 95, .doctor true true false false 95 96 97 98,
+   .put { ts := 7, content := "bb", len := 4, plen := 4 } {}, .vacuum 90 95, .doctor true true false true 95 96 97 98,
    .finalizeIndexes 99]
 
 theorem exHistoryE_ok : ∀ op ∈ exHistoryE ++ [Op.reopen 100 101], OpOk op := by
@@ -266,7 +266,7 @@ theorem exHistoryE_ok : ∀ op ∈ exHistoryE ++ [Op.reopen 100 101], OpOk op :=
   · exact ⟨(by intro d t h; cases h; decide), (by intro c hc; cases hc)⟩
   · intro h; obtain ⟨x, hx, hs⟩ := h; simp [embsOf] at hx; subst hx; cases hs
   · trivial
-  · rfl
+  · trivial
   · trivial
   · trivial
 
